@@ -42,11 +42,11 @@ func projects() []*project {
 	td := filepath.Join(common.Root, "props", "c18", "testdata")
 	return []*project{
 		{Name: "multi", Quick: true,
-			About:     "follow-schema exec + follow-schema resolvers, 6 schema files in 4 directories, extend type across files, directives declared in 4 files, generated models + autobind of 2 hand-written packages, models/directives config",
+			About:     "follow-schema exec + follow-schema resolvers, 7 schema files in 4 directories, naming.graphql with the identifier classes (initialism prefix APIKey/HTTPEndpoint/URLInfo, inner initialism OAuthToken/userID/xAPIKey, underscores leading/embedded/trailing, lower-case start, keyword-like Type/Func/type/func/range/var) each with resolver fields, extend type across files, directives declared in 4 files, generated models + autobind of 2 hand-written packages, models/directives config",
 			Files:     readTree(filepath.Join(td, "multi")),
 			StartDirs: [3]string{".", "schema/shop", "schema/shop/extra"}},
 		{Name: "input", Quick: true,
-			About:     "input-heavy schema (15 inputs, scalar/list/object-literal defaults, input directives, @oneOf, omittable, extraFields, enum_values, custom scalar), single-file exec, single-file resolver layout, models in their own package",
+			About:     "input-heavy schema (15 inputs, scalar/list/object-literal defaults, input directives, @oneOf, omittable, extraFields, enum_values, custom scalar), single-file exec, single-file resolver layout, models in their own package; non-default options struct_fields_always_pointers:false, omit_slice_element_pointers, resolvers_always_return_pointers:false, nullable_input_omittable, enable_model_json_omitempty_tag:false, enable_model_json_omitzero_tag:true on object types with mutual and self references (non-null, nullable, list; 2- and 3-cycles); the same naming.graphql identifier classes with resolver fields",
 			Files:     readTree(filepath.Join(td, "input")),
 			StartDirs: [3]string{".", "ext", "graph/model"}},
 		{Name: "fed", Quick: true,
